@@ -608,6 +608,12 @@ func c11Concurrent(tier string) []fw.Scenario {
 		{{{"U", 0}}, {{"U", 1}, {"S", 1}}, {{"N", 1}, {"E", 0}}},
 		{{{"U", 0}, {"S", 0}}, {{"N", 1}, {"N", 2}}},
 		{{{"U", 0}}, {{"U", 1}}, {{"N", 1}, {"N", 2}}},
+		// the last observer leaves while the source terminates (after the prefix [Sub0])
+		// (producer first: in the canonical schedule it runs ahead, one preemption hands over to the leaver)
+		{{{"N", 1}, {"C", 0}}, {{"U", 0}}},
+		{{{"N", 1}, {"E", 0}}, {{"U", 0}}},
+		{{{"C", 0}}, {{"U", 0}}, {{"S", 1}}},
+		{{{"E", 0}}, {{"U", 0}, {"S", 0}}},
 	}
 	for _, cfg := range shareConfigs() {
 		cfg := cfg
@@ -618,6 +624,9 @@ func c11Concurrent(tier string) []fw.Scenario {
 			pre := []sop{}
 			if si >= 2 {
 				pre = []sop{{"S", 0}, {"S", 1}}
+			}
+			if si >= 5 {
+				pre = []sop{{"S", 0}}
 			}
 			progs = append(progs, prog{name: fmt.Sprintf("%s/set%d", cfg.name, si), build: cfg.build, pre: pre, threads: set,
 				model: func() c11FinalModel { return newShareModel(cfg, 2) }})
